@@ -371,6 +371,7 @@ def inLoop (m : Mgr) (elem : V) : List V → R
   | e :: es =>
     match equalOp m elem e with
     | .ok (.bool true) => .ok (.bool true)
+    | .ok (.host t a) => .ok (.host "in" [.host t a])   -- membership depends on a host conversion
     | .ok _ => inLoop m elem es
     | .err c => .err c
     | .panic s => .panic s
